@@ -506,6 +506,21 @@ func ruleGroupNoRunAfterStop(c *Ctx, r *R) {
 					}
 					continue
 				}
+				// the worker literal is built by a function of the package that is handed the context
+				// (g.spawn(periodicLoop(g.ctx, interval, jitter, f))): what every call site of that builder passes
+				if prm, ok := lf.v.(*ssa.Parameter); ok && prm.Parent() != nil && prm.Parent().Parent() == nil && rootFn(prm.Parent()).Pkg == pkg && w.Parent() == prm.Parent() {
+					idx := paramIndex(prm)
+					sites := callSitesOf(c, prm.Parent())
+					if len(sites) == 0 || idx < 0 {
+						return false
+					}
+					for _, site := range sites {
+						if idx >= len(site.Call.Args) || !isGroupCtx(site.Call.Args[idx]) {
+							return false
+						}
+					}
+					continue
+				}
 				// the worker literal is handed the context by the launcher (g.spawn(func(ctx context.Context) {...}) with
 				// spawn calling f(g.ctx)): what the launcher passes
 				if prm, ok := lf.v.(*ssa.Parameter); ok && prm.Parent() != nil && prm.Parent().Parent() != nil {
